@@ -70,8 +70,10 @@ func NamedSpec(stream string, off map[string]bool, from, to uint64) Spec {
 		// service-heavy programs generated with the assertion plugin attached
 		s.Sem = func(i uint64, rng *core.Rand) idlm.SemOpts {
 			o := base(i, rng)
-			o.ServiceBias, o.GoAnns, o.ChainMode = true, rng.Chance(2, 3), rng.Chance(1, 3)
+			// ServiceBias prefers parents from included files; without it parents are mostly in the same file
+			o.ServiceBias, o.GoAnns, o.ChainMode = rng.Chance(2, 3), rng.Chance(2, 3), rng.Chance(1, 3)
 			o.TypedefZoo = rng.Chance(2, 3)
+			o.MaxDefs = 8
 			return o
 		}
 		s.CLI = func(i uint64, rng *core.Rand) CLIOpts {
